@@ -20,4 +20,66 @@ CONTRACTS = {
              ('values', 'forall(j, 0, len(pref_list), result0[j] == value(pref_list[j]))'),
              ('first-rank', 'implies(len(pref_list) > 0, result1[0] == 1)'),
              ('rank-step', 'forall(j, 0, len(pref_list) - 1, result1[j+1] == result1[j] + ite(ties[j] != 0, 0, 1))')]),
+
+ # one student's row of Pair objects: fresh objects, in list order, with the file's project numbers and dense ranks
+ M + '_create_pairs_row': dict(
+    params={'model': ('ext', 'model'), 'st_prefs': ('list', 'tok'), 'st_num': 'int'},
+    ghost={'ties': ('list', 'int')},
+    locals={'pairs_row': ('list', 'ref')},
+    call_ghost={'_get_simple_pref_list_and_ranks': {'ties': 'ties'}},
+    requires=[('ties-cover', 'len(ties) >= len(st_prefs)'),
+              ('well-bracketed', 'forall(j, 0, len(st_prefs), kind(st_prefs[j]) == spec_kind(ties, j, len(st_prefs)))')],
+    defs={'row_ok': (['row', 'n'], "forall(c, 0, n, row[c] != None and alloc(row[c]) and not old(alloc(row[c]))"
+                                   " and has(row[c], 'studentID') and has(row[c], 'projectID') and has(row[c], 'student_index') and has(row[c], 'project_index') and has(row[c], 'rank_student')"
+                                   " and not has(row[c], 'lecturerID') and not has(row[c], 'rank_lecturer')"
+                                   " and row[c].studentID == st_num and row[c].student_index == st_num - 1"
+                                   " and row[c].projectID == value(st_prefs[c]) and row[c].project_index == value(st_prefs[c]) - 1"
+                                   " and row[c].rank_student == simp_st_ranks[c])"),
+          'distinct': (['row', 'n'], 'forall(a, 0, n, forall(b, 0, n, implies(row[a] == row[b], a == b)))'),
+          'old_untouched': ([], "forall(r, implies(old(alloc(ref(r))), alloc(ref(r))"
+                                " and has(ref(r), 'studentID') == old(has(ref(r), 'studentID')) and has(ref(r), 'rank_student') == old(has(ref(r), 'rank_student'))"
+                                " and has(ref(r), 'projectID') == old(has(ref(r), 'projectID'))"
+                                " and attr_eq_old(r)))")},
+    loops={0: dict(invariant=['len(pairs_row) == _k', 'row_ok(pairs_row, _k)', 'distinct(pairs_row, _k)', 'old_untouched()'])},
+    modifies=['heap:studentID', 'heap:projectID', 'heap:student_index', 'heap:project_index', 'heap:rank_student', 'ghost:alloc'],
+    returns=('list', 'ref'),
+    ensures=[('one-pair-per-entry', 'len(result) == len(st_prefs)'),
+             ('fresh-distinct-objects', 'distinct(result, len(result)) and forall(c, 0, len(result), result[c] != None and alloc(result[c]) and not old(alloc(result[c])))'),
+             ('student-project-and-rank', "forall(c, 0, len(result), result[c].studentID == st_num and result[c].projectID == value(st_prefs[c]) and result[c].student_index == st_num - 1"
+                                          " and result[c].project_index == value(st_prefs[c]) - 1)"),
+             ('ranks-are-dense-and-follow-the-ties', 'implies(len(result) > 0, result[0].rank_student == 1) and forall(c, 0, len(result) - 1, result[c+1].rank_student == result[c].rank_student + ite(ties[c] != 0, 0, 1))'),
+             ('existing-objects-untouched', 'old_untouched()')]),
+
+ M + '_set_lecturers': dict(
+    params={'model': ('obj', 'Model'), 'project_lecturers': ('list', 'int')},
+    requires=[('pairs-have-projects-in-range', "forall(i, 0, len(model.pairs), forall(c, 0, len(model.pairs[i]), model.pairs[i][c] != None and has(model.pairs[i][c], 'project_index')"
+               " and 0 <= model.pairs[i][c].project_index and model.pairs[i][c].project_index < len(project_lecturers)))")],
+    defs={'lect_ok': (['p'], "has(p, 'lecturerID') and has(p, 'lecturer_index') and p.lecturerID == project_lecturers[p.project_index] and p.lecturer_index == p.lecturerID - 1")},
+    loops={0: dict(invariant=['forall(i, 0, _k, forall(c, 0, len(model.pairs[i]), lect_ok(model.pairs[i][c])))']),
+           1: dict(invariant=['forall(i, 0, _k0, forall(c, 0, len(model.pairs[i]), lect_ok(model.pairs[i][c])))', 'forall(c, 0, _k, lect_ok(model.pairs[_k0][c]))'])},
+    modifies=['heap:lecturerID', 'heap:lecturer_index'],
+    ensures=[('every-pair-gets-the-lecturer-of-its-project', 'forall(i, 0, len(model.pairs), forall(c, 0, len(model.pairs[i]), lect_ok(model.pairs[i][c])))')]),
+
+ # {(lecturer, student): rank} for one second-side list: every listed student once... with the dense rank of its tie group
+ M + '_create_student_ranks': dict(
+    params={'model': ('ext', 'model'), 'lec_prefs': ('list', 'tok'), 'lec_num': 'int'},
+    ghost={'ties': ('list', 'int')},
+    call_ghost={'_get_simple_pref_list_and_ranks': {'ties': 'ties'}},
+    requires=[('ties-cover', 'len(ties) >= len(lec_prefs)'),
+              ('well-bracketed', 'forall(j, 0, len(lec_prefs), kind(lec_prefs[j]) == spec_kind(ties, j, len(lec_prefs)))')],
+    loops={0: dict(invariant=['forall(a, forall(b, map_has(student_ranks, a, b) == (a == lec_num and exists(j, 0, _k, simp_lec_prefs[j] == b))))',
+                              'forall(j, 0, _k, exists(j2, j, _k, simp_lec_prefs[j2] == simp_lec_prefs[j] and map_get(student_ranks, lec_num, simp_lec_prefs[j]) == simp_lec_ranks[j2]))'])},
+    returns=('map',),
+    ensures=[('keys-are-exactly-the-listed-students-of-this-lecturer', 'forall(a, forall(b, map_has(result, a, b) == (a == lec_num and exists(j, 0, len(lec_prefs), value(lec_prefs[j]) == b))))'),
+             ('rank-of-a-listed-student', 'forall(j, 0, len(lec_prefs), exists(j2, j, len(lec_prefs), value(lec_prefs[j2]) == value(lec_prefs[j]) and map_get(result, lec_num, value(lec_prefs[j])) == simp_lec_ranks[j2]))')]),
+
+ M + '_set_lecturer_ranks': dict(
+    params={'model': ('obj', 'Model'), 'lec_st_ranks': ('map',)},
+    requires=[('every-pair-has-a-rank-entry', "forall(i, 0, len(model.pairs), forall(c, 0, len(model.pairs[i]), model.pairs[i][c] != None and has(model.pairs[i][c], 'lecturerID') and has(model.pairs[i][c], 'studentID')"
+               " and map_has(lec_st_ranks, model.pairs[i][c].lecturerID, model.pairs[i][c].studentID)))")],
+    defs={'rl_ok': (['p'], "has(p, 'rank_lecturer') and p.rank_lecturer == map_get(lec_st_ranks, p.lecturerID, p.studentID)")},
+    loops={0: dict(invariant=['forall(i, 0, _k, forall(c, 0, len(model.pairs[i]), rl_ok(model.pairs[i][c])))']),
+           1: dict(invariant=['forall(i, 0, _k0, forall(c, 0, len(model.pairs[i]), rl_ok(model.pairs[i][c])))', 'forall(c, 0, _k, rl_ok(model.pairs[_k0][c]))'])},
+    modifies=['heap:rank_lecturer'],
+    ensures=[('every-pair-gets-the-rank-of-its-student-on-its-lecturers-list', 'forall(i, 0, len(model.pairs), forall(c, 0, len(model.pairs[i]), rl_ok(model.pairs[i][c])))')]),
 }
